@@ -34,6 +34,9 @@ class AsynctelnetTransport(AsyncTransport):
         self._eof = False
         self._raw_buf = b""
         self._cooked_buf = b""
+        # control sequence (IAC [+ verb]) read so far; kept between reads as a sequence may be split
+        # across two socket reads
+        self._control_buf = b""
 
         self._control_char_sent_counter = 0
         self._control_char_sent_limit = 10
@@ -115,23 +118,26 @@ class AsynctelnetTransport(AsyncTransport):
         if not self.stdout:
             raise ScrapliConnectionNotOpened
 
-        index = self._raw_buf.find(IAC)
-        if index == -1:
-            self._cooked_buf = self._raw_buf
-            self._raw_buf = b""
-            return
+        if not self._control_buf:
+            index = self._raw_buf.find(IAC)
+            if index == -1:
+                self._cooked_buf = self._raw_buf
+                self._raw_buf = b""
+                return
 
-        self._cooked_buf = self._raw_buf[:index]
-        self._raw_buf = self._raw_buf[index:]
+            self._cooked_buf = self._raw_buf[:index]
+            self._raw_buf = self._raw_buf[index:]
 
         # control_buf is the buffer for control characters, we reset this after being "done" with
         # responding to a control sequence, so it always represents the "current" control sequence
         # we are working on responding to
-        control_buf = b""
+        control_buf = self._control_buf
 
         while self._raw_buf:
             c, self._raw_buf = self._raw_buf[:1], self._raw_buf[1:]
             control_buf = self._handle_control_chars_response(control_buf=control_buf, c=c)
+
+        self._control_buf = control_buf
 
     async def open(self) -> None:
         self._pre_open_closing_log(closing=False)
